@@ -20,6 +20,7 @@ package main
 // treated as before.
 
 import (
+	"go/constant"
 	"fmt"
 	"go/token"
 	"go/types"
@@ -48,10 +49,22 @@ type corrMember struct {
 	pol   bool // truth of the class condition on successor edge 0
 }
 
+const corrMaxPhis = 8
+
+// pathFacts: what a path has established so far: the truth of the condition classes (two bits per class) and, for the
+// tracked phis, through which incoming edge the path last entered the phi's block (index+1; 0 unknown).
+type pathFacts struct {
+	bits uint32
+	sel  [corrMaxPhis]int8
+}
+
 type corrInfo struct {
-	classes []*corrClass
-	members map[*ssa.BasicBlock]corrMember
-	kills   map[ssa.Instruction]uint32 // class bit mask
+	classes    []*corrClass
+	members    map[*ssa.BasicBlock]corrMember
+	kills      map[ssa.Instruction]uint32 // class bit mask
+	tphis      []*ssa.Phi                 // phis some of whose incoming values are constants and that decide branches
+	tphiIdx    map[*ssa.Phi]int
+	tphiBlocks map[*ssa.BasicBlock][]int
 }
 
 var corrCache = map[*ssa.Function]*corrInfo{}
@@ -338,7 +351,11 @@ func buildCorr(f *ssa.Function) *corrInfo {
 		}
 		ci.members[cd.b] = corrMember{class: i, pol: cd.pol}
 	}
+	ci.trackPhis(f)
 	if len(ci.classes) == 0 {
+		if os.Getenv("MQTTCHECK_DEBUG_CORR") != "" && len(ci.tphis) > 0 {
+			fmt.Fprintf(os.Stderr, "corr: %s tracks %d phi(s) of constants\n", FuncName(f), len(ci.tphis))
+		}
 		return ci
 	}
 	for _, b := range f.Blocks {
@@ -380,4 +397,262 @@ func corrClear(facts uint32, mask uint32) uint32 {
 		}
 	}
 	return facts
+}
+
+// ---- phis of constants ---------------------------------------------------------------------------------------------
+//
+// `res = waitClosed` in one select case, `res = waitAcked` in another, then `switch res {…}`: the value a branch tests is a
+// phi whose incoming values are constants, and which constant it is follows from the edge through which the path entered
+// the phi's block. CanReach records that edge for the phis that (through comparisons, negations and further phis) decide
+// a branch or are the channel of a select case, evaluates branch conditions with it, and does not follow an edge the
+// condition excludes. A phi's record is overwritten whenever the path enters its block again, and a condition computed
+// from a phi is dominated by the phi's block, so a stale record is never consulted.
+
+func (ci *corrInfo) trackPhis(f *ssa.Function) {
+	relevant := map[*ssa.Phi]bool{}
+	var order []*ssa.Phi
+	var visit func(v ssa.Value, depth int)
+	visit = func(v ssa.Value, depth int) {
+		if depth > 8 {
+			return
+		}
+		switch x := v.(type) {
+		case *ssa.Phi:
+			if relevant[x] || x.Parent() != f {
+				return
+			}
+			relevant[x] = true
+			order = append(order, x)
+			for _, e := range x.Edges {
+				visit(e, depth+1)
+			}
+		case *ssa.UnOp:
+			if x.Op == token.NOT {
+				visit(x.X, depth+1)
+			}
+		case *ssa.BinOp:
+			switch x.Op {
+			case token.EQL, token.NEQ, token.LSS, token.LEQ, token.GTR, token.GEQ:
+				visit(x.X, depth+1)
+				visit(x.Y, depth+1)
+			}
+		case *ssa.ChangeType:
+			visit(x.X, depth+1)
+		case *ssa.Convert:
+			visit(x.X, depth+1)
+		case *ssa.MakeInterface:
+			visit(x.X, depth+1)
+		}
+	}
+	for _, b := range f.Blocks {
+		if iff := blockIf(b); iff != nil {
+			visit(iff.Cond, 0)
+		}
+		for _, in := range b.Instrs {
+			if sel, ok := in.(*ssa.Select); ok {
+				for _, st := range sel.States {
+					visit(st.Chan, 0)
+				}
+			}
+		}
+	}
+	isConstLike := func(v ssa.Value) bool {
+		for {
+			switch x := v.(type) {
+			case *ssa.ChangeType:
+				v = x.X
+				continue
+			case *ssa.Convert:
+				v = x.X
+				continue
+			case *ssa.MakeInterface:
+				v = x.X
+				continue
+			}
+			break
+		}
+		_, ok := v.(*ssa.Const)
+		return ok
+	}
+	// keep phis with a constant incoming value, and phis fed by such phis
+	keep := map[*ssa.Phi]bool{}
+	for changed := true; changed; {
+		changed = false
+		for _, p := range order {
+			if keep[p] {
+				continue
+			}
+			for _, e := range p.Edges {
+				if isConstLike(e) {
+					keep[p] = true
+				}
+				if q, ok := e.(*ssa.Phi); ok && keep[q] {
+					keep[p] = true
+				}
+			}
+			if keep[p] {
+				changed = true
+			}
+		}
+	}
+	ci.tphiIdx = map[*ssa.Phi]int{}
+	ci.tphiBlocks = map[*ssa.BasicBlock][]int{}
+	for _, p := range order {
+		if !keep[p] || len(ci.tphis) >= corrMaxPhis {
+			continue
+		}
+		ci.tphiIdx[p] = len(ci.tphis)
+		ci.tphiBlocks[p.Block()] = append(ci.tphiBlocks[p.Block()], len(ci.tphis))
+		ci.tphis = append(ci.tphis, p)
+	}
+}
+
+type evalRes struct {
+	kind int // 0 unknown, 1 constant, 2 nil, 3 known non-nil
+	val  constant.Value
+}
+
+func (ci *corrInfo) evalVal(v ssa.Value, st *pathFacts, depth int) evalRes {
+	if depth > 10 {
+		return evalRes{}
+	}
+	switch x := v.(type) {
+	case *ssa.Const:
+		if x.Value == nil {
+			if _, isBasic := x.Type().Underlying().(*types.Basic); isBasic {
+				return evalRes{} // zero value of a basic type represented without a value
+			}
+			return evalRes{kind: 2}
+		}
+		return evalRes{kind: 1, val: x.Value}
+	case *ssa.ChangeType:
+		return ci.evalVal(x.X, st, depth+1)
+	case *ssa.Convert:
+		r := ci.evalVal(x.X, st, depth+1)
+		if r.kind == 1 && r.val.Kind() == constant.Int {
+			if _, isInt := x.Type().Underlying().(*types.Basic); isInt {
+				return r
+			}
+		}
+		return evalRes{}
+	case *ssa.MakeInterface:
+		if _, isPtr := x.X.Type().Underlying().(*types.Pointer); !isPtr {
+			switch x.X.Type().Underlying().(type) {
+			case *types.Struct, *types.Basic, *types.Array:
+				return evalRes{kind: 3}
+			}
+		}
+		r := ci.evalVal(x.X, st, depth+1)
+		if r.kind == 3 {
+			return r
+		}
+		return evalRes{}
+	case *ssa.Phi:
+		if j, ok := ci.tphiIdx[x]; ok && st.sel[j] > 0 && int(st.sel[j])-1 < len(x.Edges) {
+			e := x.Edges[st.sel[j]-1]
+			if q, isPhi := e.(*ssa.Phi); isPhi && q.Block() == x.Block() {
+				return evalRes{} // phis of one block are assigned simultaneously: this refers to q's previous value
+			}
+			return ci.evalVal(e, st, depth+1)
+		}
+		return evalRes{}
+	case *ssa.UnOp:
+		if x.Op == token.NOT {
+			if b, known := ci.evalCond(x.X, st, depth+1); known {
+				return evalRes{kind: 1, val: constant.MakeBool(!b)}
+			}
+		}
+		return evalRes{}
+	case *ssa.BinOp:
+		if b, known := ci.evalCond(v, st, depth+1); known {
+			return evalRes{kind: 1, val: constant.MakeBool(b)}
+		}
+		return evalRes{}
+	case *ssa.Alloc, *ssa.MakeClosure, *ssa.Function, *ssa.MakeChan, *ssa.MakeMap, *ssa.MakeSlice:
+		return evalRes{kind: 3}
+	}
+	if curCtx != nil && depth < 3 {
+		switch v.Type().Underlying().(type) {
+		case *types.Pointer, *types.Interface, *types.Chan, *types.Signature, *types.Map, *types.Slice:
+			if curCtx.knownNonNil(v, map[ssa.Value]bool{}) {
+				return evalRes{kind: 3}
+			}
+		}
+	}
+	return evalRes{}
+}
+
+// evalCond: the truth of a branch condition on the path described by st, if the path decides it.
+func (ci *corrInfo) evalCond(v ssa.Value, st *pathFacts, depth int) (bool, bool) {
+	if depth > 10 {
+		return false, false
+	}
+	switch x := v.(type) {
+	case *ssa.Const:
+		if x.Value != nil && x.Value.Kind() == constant.Bool {
+			return constant.BoolVal(x.Value), true
+		}
+	case *ssa.UnOp:
+		if x.Op == token.NOT {
+			b, known := ci.evalCond(x.X, st, depth+1)
+			return !b, known
+		}
+	case *ssa.Phi, *ssa.ChangeType:
+		r := ci.evalVal(v, st, depth+1)
+		if r.kind == 1 && r.val.Kind() == constant.Bool {
+			return constant.BoolVal(r.val), true
+		}
+	case *ssa.BinOp:
+		// the dispatch of a select: `index == k` cannot hold when case k waits on a nil channel
+		if x.Op == token.EQL {
+			if ex, ok := x.X.(*ssa.Extract); ok && ex.Index == 0 {
+				if sel, ok := ex.Tuple.(*ssa.Select); ok {
+					if k, ok := constInt(x.Y); ok && k >= 0 && int(k) < len(sel.States) {
+						if r := ci.evalVal(sel.States[k].Chan, st, depth+1); r.kind == 2 {
+							return false, true
+						}
+					}
+					return false, false
+				}
+			}
+		}
+		switch x.Op {
+		case token.EQL, token.NEQ, token.LSS, token.LEQ, token.GTR, token.GEQ:
+		default:
+			return false, false
+		}
+		a, b := ci.evalVal(x.X, st, depth+1), ci.evalVal(x.Y, st, depth+1)
+		if a.kind == 0 || b.kind == 0 {
+			return false, false
+		}
+		if a.kind == 1 && b.kind == 1 {
+			if a.val.Kind() != b.val.Kind() {
+				return false, false
+			}
+			switch a.val.Kind() {
+			case constant.Int, constant.String, constant.Float:
+				return constant.Compare(a.val, x.Op, b.val), true
+			case constant.Bool:
+				if x.Op == token.EQL || x.Op == token.NEQ {
+					return constant.Compare(a.val, x.Op, b.val), true
+				}
+			}
+			return false, false
+		}
+		if x.Op != token.EQL && x.Op != token.NEQ {
+			return false, false
+		}
+		// nil-ness
+		if (a.kind == 2 || a.kind == 3) && (b.kind == 2 || b.kind == 3) {
+			if a.kind == 3 && b.kind == 3 {
+				return false, false
+			}
+			eq := a.kind == 2 && b.kind == 2
+			if x.Op == token.NEQ {
+				return !eq, true
+			}
+			return eq, true
+		}
+	}
+	return false, false
 }
